@@ -2,3 +2,4 @@ import PncModel.Wire
 import PncModel.Arl
 import PncModel.Interp
 import PncModel.Val2idx
+import PncModel.Registry
